@@ -100,6 +100,11 @@ impl Snap {
         if self.policies != other.policies {
             return Some(format!("policies {:?} -> {:?}", self.policies, other.policies));
         }
+        self.diff_complex(other)
+    }
+
+    /// Like `diff` but ignoring policies: only the stored complex (vertices, cells, neighbours).
+    pub fn diff_complex(&self, other: &Self) -> Option<String> {
         if self.n_verts_reported != other.n_verts_reported
             || self.verts.len() != other.verts.len()
         {
